@@ -35,6 +35,9 @@ GROUPS = [
     ["measured.si.Joule", "(measured.si.Kilo * measured.si.Watt * measured.si.Hour)",
      "measured.Unit.named('calorie')"],
     ["(measured.si.Meter ** 2)", "measured.us.Acre", "measured.si.Hectare"],
+    ["(measured.us.Yard ** 2)", "(measured.us.Pica ** 2)", "(measured.us.Mile ** 2)", "(measured.us.Inch ** 2)"],
+    ["(measured.us.Mile ** 3)", "(measured.us.Inch ** 3)", "(measured.si.Meter ** 3)", "measured.us.Gallon"],
+    ["(measured.si.Hour ** -1)", "(measured.si.Day ** -1)", "measured.si.Hertz"],
     ["measured.si.Newton", "measured.us.PoundForce",
      "(measured.si.Kilogram * measured.si.Meter / measured.si.Second ** 2)"],
 ]
@@ -175,7 +178,11 @@ def worker(task: Tuple) -> Dict[str, Any]:
                     elif r == "unknown":
                         acc.ob("unknown", name, key)
                     else:
-                        m = acc.P.shaped_model([p.cond, z3.Not(goal)], [X, Y])
+                        # prefer a counterexample far from the tie zone, so that the float
+                        # replay sits on the same side as the exact model
+                        far = absz(A - B) > symnum.q(Fraction(1, 100)) * (absz(A) + absz(B))
+                        m = acc.P.shaped_model([p.cond, z3.Not(goal), far], [X, Y]) or \
+                            acc.P.shaped_model([p.cond, z3.Not(goal)], [X, Y])
                         if m is None:
                             acc.ob("unknown", name + "(real-model-only)", key)
                             continue
